@@ -8,6 +8,7 @@ import NutsModel.C18.Policy
 import NutsModel.C18.Cache
 import NutsProofs.Lemmas.C18
 import NutsProofs.Lemmas.C18Deep
+import NutsProofs.Lemmas.C18X
 import NutsModel.C18.RCacheOld
 
 namespace Nuts.C18.Props
@@ -528,5 +529,66 @@ example :
 
 example : readUvarint (appendUvarint 4613 ++ [48, 130]) = .ok (4613, [48, 130]) :=
   multicodec_prefix_roundtrip 4613 (by decide) [48, 130]
+
+/-! ### Deepening round 2: did:x509 (vdr/didx509) — the document is bound to the identifier AND to the presented chain -/
+
+/-- **The parsed reference is the identifier** (`parseX509Did`, every text): an accepted identifier is exactly
+    `0:<alg>:<root>` followed by `::<name>:<value>` per policy — nothing of the text is dropped or reordered —
+    hence two identifiers with the same reference are the same identifier. -/
+theorem x509_reference_is_the_identifier (id : Bytes) (r : XRef) (h : parseX509Did id = .ok r) :
+    id = refText r ∧ ∀ id', parseX509Did id' = .ok r → id' = id := by
+  refine ⟨parseX509Did_shape id r h, fun id' h' => ?_⟩
+  rw [parseX509Did_shape id r h, parseX509Did_shape id' r h']
+
+/-- `strings.Split` / `strings.Join` on `"::"` as modelled are inverse on every text -/
+theorem x509_split_join (s : Bytes) : joinDC (splitDC s) = s := joinDC_splitDC s
+
+/-- **Every policy of the identifier is enforced** (`validatePolicy`, all policy lists, all certificates): a list is accepted
+    iff each of its parts is; and an accepted list means: every policy is `subject`/`san`, every key of it is in
+    `validatorMap` and the certificate carries the (query-unescaped) value. Appending a policy can only refuse more. -/
+theorem x509_policies_all_enforced (tbl : XTbl) (c : XCert) (ps qs : List XPolicy) :
+    (validatePolicy tbl c (ps ++ qs) = .ok () ↔ (validatePolicy tbl c ps = .ok () ∧ validatePolicy tbl c qs = .ok ())) ∧
+    (validatePolicy tbl c ps = .ok () → ∀ p ∈ ps, policyHolds tbl c p) :=
+  ⟨validatePolicy_append tbl c ps qs, validatePolicy_sound tbl c ps⟩
+
+/-- **The validation certificate is the one every present thumbprint header names** (`findValidationCertificate`): it is in
+    the chain, `x5t` (SHA-1) and `x5t#S256` (SHA-256) — each if present — are its hash, and at least one is present. -/
+theorem x509_validation_cert_named_by_every_thumbprint (ids : List Nat) (x5t x5s : Option XTarget) (c : Nat)
+    (h : findValidationCert ids x5t x5s = .ok c) :
+    c ∈ ids ∧ (x5t = none ∨ x5t = some (.hashOf c sSha1)) ∧ (x5s = none ∨ x5s = some (.hashOf c sSha256)) ∧
+      (x5t ≠ none ∨ x5s ≠ none) :=
+  findValidationCert_sound ids x5t x5s c h
+
+/-- **did:x509 binding** (`Resolver.Resolve`, every identifier, every header set, every certificate universe): a returned
+    document has exactly the resolved DID as id; the identifier is `0:<alg>:<root>::…` read without loss; a chain was
+    presented, the root reference is the hash (under the identifier's algorithm, lower-cased) of a certificate OF THAT CHAIN;
+    the policies were checked against the chain certificate named by every present thumbprint header; every policy of the
+    identifier holds for that certificate; the CRL check passed.  No step performs I/O (the function has no server argument). -/
+theorem x509_accept_sound (tbl : XTbl) (method id : Bytes) (inp : XInput) (doc : Bytes)
+    (h : resolveX509 tbl method id inp = .ok doc) : X509Accepted tbl method id inp doc :=
+  resolveX509_sound tbl method id inp doc h
+
+/-- a nil `*ResolveMetadata` is dereferenced by `GetProtectedHeaderChain` (after the identifier parsed): panic, not an error -/
+theorem x509_nil_metadata_panics :
+    resolveX509 xValidatorTable sX509 [48, 58, 97, 58, 98] { chain := .nilMeta, x5t := none, x5tS256 := none, certs := fun _ => {}, crlOK := true, vmOK := true }
+      = .panic "nil-metadata" := by decide
+
+/-- non-vacuity: `0:sha256:H0sha256::subject:CN:a%2Bb::san:dns:x` over chain [0,1], x5t#S256 naming certificate 1 whose CN is
+    `a+b` and which has DNS name `x`, resolves; with certificate 0 named (no such attributes) it is a mismatch; with the
+    `san` policy first and an unknown key it is refused before the subject is looked at; ":::" splits as Go does -/
+example :
+    let id : Bytes := [48,58,115,104,97,50,53,54,58,72,48,115,104,97,50,53,54,58,58,115,117,98,106,101,99,116,58,67,78,58,97,37,50,66,98,58,58,115,97,110,58,100,110,115,58,120]
+    let certs : Nat → XCert := fun k => if k = 1 then { cn := [97, 43, 98], dns := [[120]] } else {}
+    let inp (k : Nat) : XInput := { chain := .chain [0, 1], x5t := none, x5tS256 := some (.hashOf k sSha256), certs := certs, crlOK := true, vmOK := true }
+    resolveX509 xValidatorTable sX509 id (inp 1) = .ok (sDid ++ sX509 ++ 58 :: id) ∧
+    resolveX509 xValidatorTable sX509 id (inp 0) = .err "mismatch" ∧
+    resolveX509 xValidatorTable sX509 id { inp 1 with crlOK := false } = .err "crl" ∧
+    resolveX509 xValidatorTable sX509 id { inp 1 with chain := .chain [1] } = .err "cert-not-found" ∧
+    splitDC [97, 58, 58, 58, 98] = [[97], [58, 98]] ∧
+    (parseX509Did id).isOk = true := by decide
+
+example : findValidationCert [0, 1, 2] (some (.hashOf 2 sSha1)) (some (.hashOf 2 sSha256)) = .ok 2 ∧
+    findValidationCert [0, 1, 2] (some (.hashOf 1 sSha1)) (some (.hashOf 2 sSha256)) = .err "thumbprints-differ" ∧
+    findValidationCert [0, 1, 2] none none = .err "no-thumbprint" := by decide
 
 end Nuts.C18.Props
